@@ -116,6 +116,9 @@ type Explorer struct {
 	FuncsSym map[string]bool // functions executed with a symbolic operand
 	trackFns bool
 	snapVals []snapRec
+	par      *parState
+	// MaxPreempt bounds the preemptive context switches per path (C06).
+	MaxPreempt int
 
 	SyncHook func(op string, addr *value) // scheduler hook (C06)
 	PoolMiss func(p *value) bool
@@ -124,6 +127,14 @@ type Explorer struct {
 func (e *Explorer) syncEvent(op string, addr *value) {
 	if e.SyncHook != nil {
 		e.SyncHook(op, addr)
+	}
+	if e.par != nil {
+		// every synchronisation operation is a scheduling point (interleavings
+		// at sync operations suffice for data-race-free programs)
+		e.par.yield()
+		if op != "pool.get" && op != "pool.put" {
+			e.par.syncOp(addr)
+		}
 	}
 }
 
@@ -370,6 +381,17 @@ func (e *Explorer) advance() bool {
 func setCell(addr *value, v value) {
 	if ex != nil && ex.logging {
 		ex.trail = append(ex.trail, trailEnt{kind: tkCell, addr: addr, old: *addr})
+		if ex.par != nil {
+			ex.par.access(addr, true)
+		}
+	}
+	*addr = v
+}
+
+// setCellAtomic is setCell for sync/atomic operations (not a plain access).
+func setCellAtomic(addr *value, v value) {
+	if ex != nil && ex.logging {
+		ex.trail = append(ex.trail, trailEnt{kind: tkCell, addr: addr, old: *addr})
 	}
 	*addr = v
 }
@@ -377,6 +399,9 @@ func setCell(addr *value, v value) {
 func logCell(addr *value) {
 	if ex != nil && ex.logging {
 		ex.trail = append(ex.trail, trailEnt{kind: tkCell, addr: addr, old: *addr})
+		if ex.par != nil {
+			ex.par.access(addr, true)
+		}
 	}
 }
 
@@ -451,6 +476,7 @@ func (e *Explorer) RunPath(f func()) (res PathResult) {
 	e.snaps = map[string]string{}
 	e.snapVals = e.snapVals[:0]
 	e.logging = true
+	e.par = nil
 	kind, msg := endOK, ""
 	func() {
 		defer func() {
@@ -527,6 +553,9 @@ func (e *Explorer) Explore(f func(), maxPaths int, visit func(*PathResult) bool)
 	for {
 		r := e.RunPath(f)
 		paths++
+		if debugPaths {
+			fmt.Fprintf(os.Stderr, "path %d kind=%s decisions=%d steps=%d msg=%.80s\n", paths, r.Kind, r.Decisions, r.Steps, r.Msg)
+		}
 		if !visit(&r) {
 			return paths, false
 		}
@@ -621,3 +650,5 @@ func VarDecls() string {
 }
 
 func VarNames() []string { return append([]string(nil), symtab.varNames...) }
+
+var debugPaths = os.Getenv("GOSYMX_DEBUG") != ""
